@@ -193,6 +193,17 @@ Theorem no_internal_edns_option : forall (wire : list Z), bytes_ok wire ->
 Proof. exact UntrustedEdns.option_from_wire_outcome. Qed.
 Print Assumptions no_internal_edns_option.
 
+(* ExceptionWrapper(FormError) around a per-type wire parser would turn a non-terminating loop (the
+   model's fuel marker) into a FormError, so termination is stated at the loops themselves: the
+   `while parser.remaining() > 0` loops of OPT.from_wire_parser (every option class inside) and of
+   TXTBase.from_wire_parser end for every octet string and every parser state inside the message
+   (each iteration consumes at least the option header / the length octet). *)
+Theorem wire_parser_loops_terminate : forall (wire : list Z), bytes_ok wire -> forall (lo : Z) (s : pstate),
+  0 <= lo -> wfl wire lo s -> pcur s <= pend s ->
+  fst (dec_opt wire s) <> Exn (XInt iFuel) /\ fst (dec_txt wire s) <> Exn (XInt iFuel).
+Proof. exact UntrustedEdns.wire_loops_terminate. Qed.
+Print Assumptions wire_parser_loops_terminate.
+
 (* ================= messages ================= *)
 
 (* dns.message.from_wire, every option combination, arbitrary per-type parsers: a message, or a
@@ -499,6 +510,15 @@ Theorem no_internal_tsig_validate :
   end.
 Proof. exact UntrustedTsig.validate_family. Qed.
 Print Assumptions no_internal_tsig_validate.
+
+(* the OPT option loop of that reader runs under the FormError wrapper, which would hide a fuel
+   marker; the loop (called with fuel rdlen + 1 on the rdlen octets of the record) never produces
+   any Python-level outcome *)
+Theorem signed_message_opt_loop_terminates : forall (w : TsigM.bytes), bytes_ok w ->
+  forall (rdata_start rdlen : nat) (e : Z),
+  TsigM.opt_options w (rdata_start + rdlen) rdata_start (S rdlen) <> Internal e.
+Proof. exact UntrustedTsig.opt_options_terminates. Qed.
+Print Assumptions signed_message_opt_loop_terminates.
 
 (* TSIG.from_wire_parser establishes tsig_inv *)
 Theorem tsig_from_wire_establishes_inv : forall (w : TsigM.bytes), bytes_ok w -> forall (endp pos : nat) t,
